@@ -20,7 +20,7 @@ from WallGo.exceptions import WallGoError
 from symx import axioms, core, npx
 from symx.core import AND, OR, Cond, Sym, close, eq, ge, gt, le, lt, ne
 from symx.harness import HarnessDef
-from props.hydrokit import Result, ScipyStubs, ThermoStub
+from props.hydrokit import Result, ScipyStubs, ThermoStub, tolerance_claims
 
 EXPLANATION = __doc__
 BOUNDS = {"paths": "<= 400 per harness (initial-guess branching, min(vw^2,cs^2), e+==e- guard)",
@@ -162,6 +162,7 @@ def h_deton(h):
     vp, vm, Tp, Tm = (core.unbox(np.asarray(x)) for x in (vp, vm, Tp, Tm))
     for n, v in (("vm", vm), ("Tm", Tm)):
         h.observe(n, v)
+    tolerance_claims(h, st, hy, "matchDeton: ")
     h.prove_eq("detonation: v+ = vw", vp, vw)
     h.prove_eq("detonation: T+ = Tn", Tp, hy.Tnucl)
     h.prove("detonation: T- in [Tn, TMaxHydro]", AND(ge(Tm, hy.Tnucl), le(Tm, hy.TMaxHydro)))
